@@ -38,9 +38,10 @@ package run
 //@ // ---- C19: the summary and progress views are built from the stored snapshot, field by field, with the verdict
 //@ // of Failed() and the error of Error(); Iterations is the sum of all three counts, IterationsStarted of the two started ones.
 //@ func (*Result).duration
-//@   props C19
+//@   props C19 C05
+//@   contended
+//@   requires r != nil && held(r.mu)
 //@   modifies nothing
-//@   ensures result >= 0 || true
 //@
 //@ func (*Result).Summary
 //@   props C19
@@ -63,7 +64,8 @@ package run
 //@   ensures [log-path] result.data.LogFilePath == r.LogFilePath && result.view == r.views.result
 //@
 //@ func (*Result).Progress
-//@   props C19
+//@   props C19 C05
+//@   contended
 //@   requires r.views != nil
 //@   modifies nothing
 //@   ensures [counts] result != nil && result.data.SuccessfulIterationCount == r.snapshot.SuccessfulIterationDurations.Count &&
@@ -110,11 +112,13 @@ package run
 //@   requires r != nil && r.output != nil && r.result != nil && wfResult(r.result) && r.result.views != nil && r.activeScenario != nil && wfT(r.activeScenario.t) &&
 //@            isBound(r.activeScenario.Teardown, r.activeScenario.t, "teardown")
 //@   dyncall Teardown : method testing.(*T).teardown(r.activeScenario.t)
+//@   modifies r.result.errors, r.activeScenario.t.tearingDown, r.activeScenario.t.failed, r.activeScenario.t.teardownFailed, r.activeScenario.t.teardownStack, Gmarks, Gcalled, GlastCalled
 //@   ensures [error-iff-teardown-failed] len(r.result.errors) == old(len(r.result.errors)) + (r.activeScenario.t.teardownFailed ? 1 : 0) && wfResult(r.result)
 //@   ensures [cleanups] forall j int :: 0 <= j && j < old(len(r.activeScenario.t.teardownStack)) ==> Gcalled[j] == old(Gcalled[j]) + 1
 //@
 //@ func (*Run).reportSetupFailure
 //@   props C06 C05
+//@   modifies r.result.errors
 //@   requires r != nil && r.output != nil && r.result != nil && wfResult(r.result) && r.result.views != nil
 //@   ensures [setup-error] result == r.result && len(r.result.errors) == old(len(r.result.errors)) + 1 && wfResult(r.result)
 //@
@@ -132,18 +136,21 @@ package run
 //@
 //@ func (*Result).MaxDurationElapsed
 //@   props C19 C06 C05
+//@   contended
 //@   requires r != nil && r.views != nil && wfResult(r)
 //@   modifies nothing
 //@   ensures result != nil
 //@
 //@ func (*Result).Interrupted
 //@   props C19 C06 C05
+//@   contended
 //@   requires r != nil && r.views != nil && wfResult(r)
 //@   modifies nothing
 //@   ensures result != nil
 //@
 //@ func (*Result).MaxIterationsReached
 //@   props C19 C06 C05
+//@   contended
 //@   requires r != nil && r.views != nil && wfResult(r)
 //@   modifies nothing
 //@   ensures result != nil
@@ -160,19 +167,23 @@ package run
 //@
 //@ func (*Result).HasDroppedIterations
 //@   props C05
+//@   contended
 //@   requires r != nil
 //@   modifies nothing
 //@   ensures result == (r.snapshot.DroppedIterationCount > 0)
 //@
 //@ fnspec trigFn(ctx context.Context, output *ui.Output, workers *workers.PoolManager, options options.RunOptions)
-//@   modifies all
+//@   modifies allbut(GRstage, GRsetups, GRteardowns, GRruns, GRsetupFailed, GRsummaries)
 //@
 //@ func (*Run).run
 //@   props C05 C06
 //@   requires wfRun(r) && r.options.Concurrency >= 1
 //@   dyncall Trigger : trigFn
+//@   assert before call context.WithTimeout : [deadline] arg1 == ((r.trigger.Duration > 0 && r.trigger.Duration < r.options.MaxDuration) ? r.trigger.Duration : r.options.MaxDuration) - 10000000
 //@   ghost before call dyn:Trigger : assert [one-pool-manager] GRruns == 0 ; GRruns = GRruns + 1
+//@   ghost after call dyn:Trigger : assume wfRun(r)
 //@   ghost at entry : GRruns = 0
+//@   modifies allbut(GRstage, GRsetups, GRteardowns, GRsetupFailed, GRsummaries)
 //@
 //@ func (*Run).Do
 //@   props C05 C06 C16
@@ -187,10 +198,37 @@ package run
 //@   ghost after call (*ActiveScenario).Setup : GRstage = 2
 //@   ghost after call (*ActiveScenario).Failed #0 : GRsetupFailed = ret0
 //@   ghost before call (*Run).run : assert [iterations-only-after-successful-setup] GRstage == 2 && GRsetups == 1 && !GRsetupFailed ; GRstage = 3
+//@   ghost after call (*Run).run : assume tracks(r.result.progressStats)
+//@   ghost after call (*Run).run : assume wfRun(r) && r.progressRunner.cancel != nil && wfT(r.activeScenario.t) && isBound(r.activeScenario.Teardown, r.activeScenario.t, "teardown")
+//@   ghost after call (*Run).run : assume r.result.snapshot.SuccessfulIterationDurations.Count <= 1000000000000000 && r.result.snapshot.FailedIterationDurations.Count <= 1000000000000000 && r.result.snapshot.DroppedIterationCount <= 1000000000000000 && r.result.runOptions.MaxFailuresRate <= 1000
 //@   ghost before call (*Runner).Stop : assert [reporter-stopped-after-iterations] GRstage == 3 ; GRstage = 4
 //@   ghost before call (*Result).GetTotals : assert [totals-after-reporter-stopped] GRstage == 4 && closed(r.progressRunner.stopped) ; GRstage = 5
 //@   ghost before call (*Run).teardownActiveScenario : assert [teardown-after-iterations] GRsetups == 1 && GRstage != 3 && GRstage != 4 ; assert [teardown-once] GRteardowns == 0 ; GRteardowns = GRteardowns + 1
+//@   ghost before call (*Run).printSummary : assume r.result.snapshot.SuccessfulIterationDurations.Count <= 1000000000000000 && r.result.snapshot.FailedIterationDurations.Count <= 1000000000000000 && r.result.snapshot.DroppedIterationCount <= 1000000000000000 && r.result.runOptions.MaxFailuresRate <= 1000
 //@   ghost before call (*Run).printSummary : assert [summary-after-teardown] GRsetups == 1 ==> GRteardowns == 1 ; GRsummaries = GRsummaries + 1
 //@   ensures [teardown-ran] GRsetups == 1 && GRteardowns == 1 && GRsummaries == 1
 //@   ensures [result] result.1 == nil && result.0 == r.result
 //@   ensures [complete] !GRsetupFailed ==> GRstage == 5
+//@
+//@ func (*ScenarioLogger).Close
+//@   props C05 C06
+//@   requires s != nil
+//@   modifies nothing
+//@
+//@ // C01: the final totals are the lifetime figures of the shared statistics (ghost history counts)
+//@ func (*Result).GetTotals
+//@   props C01 C05 C19
+//@   assert before call (*Stats).Total : [totals-under-the-result-lock] held(r.mu)
+//@   requires r != nil && r.progressStats != nil && tracks(r.progressStats)
+//@   modifies r.snapshot, r.progressStats.successfulIterationDurations, r.progressStats.failedIterationDurations
+//@   ensures [totals] (r.snapshot.SuccessfulIterationDurations.Count == NrecS && r.snapshot.FailedIterationDurations.Count == NrecF &&
+//@           r.snapshot.DroppedIterationCount == NrecD && tracks(r.progressStats))
+//@
+//@ func (*Result).SnapshotProgress
+//@   props C01 C05 C19
+//@   contended
+//@   assert before call (*Stats).Snapshot : [snapshot-under-the-result-lock] held(r.mu)
+//@   requires r != nil && r.progressStats != nil && tracks(r.progressStats)
+//@   modifies r.snapshot, r.progressStats.successfulIterationDurations, r.progressStats.failedIterationDurations
+//@   ensures [snapshot] (r.snapshot.SuccessfulIterationDurations.Count == NrecS && r.snapshot.FailedIterationDurations.Count == NrecF &&
+//@           r.snapshot.DroppedIterationCount == NrecD && tracks(r.progressStats))
